@@ -94,6 +94,19 @@ def run_case(case):
             return orig["major"](gene_, cov_, cn_sol, *a, **k)
 
         aldy.major.solve_major_model = first_empty
+    elif kill == "nudge":
+        # not a fault: the refinement stage's second-best candidate is moved to best + gap + 0.005, i.e. inside the documented
+        # tolerance (0.01) of the final gap filter; the selection is judged by the recomputation below on the recorded (moved) scores
+        orig["estimate_minor"] = aldy.minor.estimate_minor
+
+        def nudged(*a, **k):
+            res = orig["estimate_minor"](*a, **k)
+            if len(res) >= 2:
+                srt = sorted(res, key=lambda s_: s_.score)
+                srt[1].score = srt[0].score + gap + 0.005
+            return res
+
+        aldy.minor.estimate_minor = nudged
     elif kill == "minor":
         orig["minor"] = aldy.minor.solve_minor_model
         aldy.minor.solve_minor_model = lambda *a, **k: []
@@ -114,9 +127,14 @@ def run_case(case):
             aldy.major.solve_major_model = orig["major"]
         if "minor" in orig:
             aldy.minor.solve_minor_model = orig["minor"]
+        if "estimate_minor" in orig:
+            aldy.minor.estimate_minor = orig["estimate_minor"]
     text = open(outpath).read()
     sols = [s for v in (res or {}).values() for s in v]
 
+    if kill == "nudge":
+        labels.append("second-best-moved-into-the-tolerance-window")
+        kill = "none"
     if kill == "major-first":
         others = any(call["result"] for call in rec.get("major", []))
         if not others and rec.get("cn") and first_cn:
@@ -220,6 +238,12 @@ def run_case(case):
         for alleles, raw in mm["result"]:
             est = raw + (m[5] - min_kept)
             cand.append((est * ((m[1] + 1) / (min_cn + 1)), key_minor(alleles), k, est))
+    if case["kill"] == "nudge":
+        # the moved score lives in estimate_minor's output: take the candidates from there (the carry-over clause is judged in the
+        # other modes)
+        cand = []
+        for (al, sc, mjd, madd, cnd, cnsc, mjsc) in rec["minor"][0]["result"]:
+            cand.append((sc * ((cnsc + 1) / (min_cn + 1)), key_minor(al), mkey(cnd, mjd, tuple(sorted(map(tuple, madd)))), sc))
     # estimate_minor's own output must be raw + carry-over
     est_out = sorted((round(sc, 6), key_minor(al)) for (al, sc, *_rest) in rec["minor"][0]["result"])
     est_want = sorted((round(c[3], 6), c[1]) for c in cand)
@@ -290,7 +314,7 @@ def strategy(tier):
                           min_size=1, max_size=5),
         "gap": st.sampled_from([0, 0.1, 0.3, 0.3]),
         "mms": st.sampled_from([1] * 10 + [2, 3]) if tier == "quick" else st.sampled_from([1, 1, 2, 3]),
-        "kill": st.sampled_from(["none"] * 7 + ["cn", "major", "minor", "major-first", "major-first"]),
+        "kill": st.sampled_from(["none"] * 7 + ["cn", "major", "minor", "major-first", "major-first", "nudge", "nudge"]),
         "sim_seed": st.integers(0, 10 ** 6),
     })
 
